@@ -119,6 +119,7 @@ func (root *Root) ResolveExecutable(
 			subMap, _ := result["data"].(map[string]interface{})
 			for _, val := range subMap {
 				if sub, _ := val.(*Subscription); sub != nil {
+					sub.vars, _ = copyDefault(opVars).(map[string]interface{})
 					root.subscribe(sub)
 					found = true
 				}
